@@ -333,7 +333,7 @@ pub fn run(ctx: &mut Ctx) {
         lens.sort();
         lens.dedup();
         for n in lens {
-            for rep in 0..tier.pick(1, 2, 6) {
+            for rep in 0..tier.pick(1, 8, 40) {
                 let bits = if rep == 0 { vec![true; n] } else { gen::random_bits(n, &mut rng) };
                 let a = Spec::set(ty, bits);
                 let room = cap - n;
@@ -358,7 +358,7 @@ pub fn run(ctx: &mut Ctx) {
                 }
             }
         }
-        for rep in 0..tier.pick(2, 40, 600) {
+        for rep in 0..tier.pick(2, 2000, 40000) {
             let n = rng.below(cap + 1);
             let a = Spec::set(ty, gen::random_bits(n, &mut rng));
             judge(ctx, &Case::new("within").with("a", a.enc()).with("seed", ctx.seed * 7919 + rep as u64 * 31 + ty as u64), "W-valid-edit-walks");
